@@ -512,8 +512,11 @@ def make_conf(is_random=True, strategy='O1', extra=None):
         extra = extra or {}
         if extra.get('tower'):
             kw['is_pep484_tower'] = True
-        if extra.get('ov'):
-            kw['hint_overrides'] = FrozenDict({hint_to_python(k): hint_to_python(v) for k, v in extra['ov']})
+        if extra.get('ov') or extra.get('ov_restated'):
+            # 'ov_restated': entries of the tower's own table (float: float | int, complex: complex | float | int) that the
+            # user also writes out; accepted by BeartypeConf and meaning nothing beyond the tower
+            kw['hint_overrides'] = FrozenDict({hint_to_python(k): hint_to_python(v)
+                                               for k, v in list(extra.get('ov') or []) + list(extra.get('ov_restated') or [])})
         for name, cls in (extra.get('violation') or {}).items():
             kw[name] = VIOLATION_CLASSES[cls]
         if 'verbosity' in extra:
